@@ -475,7 +475,8 @@ Qed.
 
 Lemma inv_open1 s u id : Inv s -> disc s (Open1 u id) -> Inv (fst (step s (Open1 u id))).
 Proof.
-  intros I (_ & Hno & Hu & c & Lc & Rc). cbn [step fst].
+  intros I (_ & Hno & Hu & c & Lc & Rc). cbn [step].
+  destruct (revisable1 (height s) (t1 (dbs s)) id) as [[]|e|]; cbn [fst]; try exact I.
   apply (inv_frame s); try reflexivity; auto.
   - intros u' x L. cbn [upds set_upds dbs cache] in *. rewrite alookup_aset in L.
     unfold cache_get at 1; cbn [cache set_upds].
